@@ -92,6 +92,7 @@ func runC16(r *rt.Run, tier string) {
 	mustFail := signerIdx == 2
 	either := false // corruption of the signature member itself: only soundness is demanded
 	var eioMember, decoyHdrEIO *arMember
+	decoyEmptyLast := false
 	tornBy := 0
 	if signerIdx == 2 {
 		fault = "outsider-signature"
@@ -199,6 +200,20 @@ func runC16(r *rt.Run, tier string) {
 				r.Probe("decoy-with-identical-name")
 			}
 			dm := &arMember{Name: name, RawName: name, Mode: "100644", Data: body}
+			switch t.Weighted([]int{6, 1, 1, 2}, "fault.decoyshape") {
+			case 1:
+				// the name column written after a leading blank (the reader strips
+				// white space on both sides of the column: it is the same name)
+				dm.RawName = " " + name
+				fault += "/name-after-a-blank"
+			case 2:
+				dm.RawName = "\t" + name
+				fault += "/name-after-a-tab"
+			case 3:
+				// an EMPTY decoy (its header is all there is of it)
+				dm.Data = nil
+				decoyEmptyLast = true
+			}
 			// position: before or after the genuine member of that kind
 			genuine := p.CtlMember
 			if name[0] == 'd' {
@@ -214,8 +229,19 @@ func runC16(r *rt.Run, tier string) {
 					break
 				}
 			}
-			fault = "decoy/" + name
+			fault = "decoy/" + name + strings.TrimPrefix(fault, "none")
 			r.Fault("stored.decoy-member")
+			if decoyEmptyLast {
+				// ... moved to the very end of the archive: the input ends with its header
+				for i, x := range ms {
+					if x == dm {
+						ms = append(append(ms[:i:i], ms[i+1:]...), dm)
+						break
+					}
+				}
+				fault = "decoy/" + name + "/empty-last-member"
+				r.Probe("empty-decoy-as-last-member")
+			}
 			if t.Bool(1, 3, "fault.decoy-header-eio") {
 				// ... and the disk fails (for good, or once) exactly where the decoy's
 				// header starts: an error there is not the end of the archive
@@ -590,5 +616,5 @@ func init() {
 		},
 		Assumptions: []string{"x/crypto/openpgp both makes and verifies the signatures: a bug common to both directions is invisible", "test keys are committed fixtures (key generation is not reproducible in Go); signing with a fixed signature time is byte-deterministic"},
 	})
-	propProbes["C16"] = []string{"data-member-stored-before-control-member", "keyring-starts-with-an-expired-key", "one-package-checked-by-concurrent-callers", "decoy-whose-header-read-fails", "tampered-twin-verified-concurrently", "debian-binary-with-further-lines", "loads-interleaved", "repeated-checks-on-one-package", "verification-succeeded", "payload-read-after-verification", "decoy-with-identical-name"}
+	propProbes["C16"] = []string{"empty-decoy-as-last-member", "data-member-stored-before-control-member", "keyring-starts-with-an-expired-key", "one-package-checked-by-concurrent-callers", "decoy-whose-header-read-fails", "tampered-twin-verified-concurrently", "debian-binary-with-further-lines", "loads-interleaved", "repeated-checks-on-one-package", "verification-succeeded", "payload-read-after-verification", "decoy-with-identical-name"}
 }
